@@ -120,7 +120,7 @@ pub fn sys_suites() -> Vec<Suite> {
         head_len: HEAD_LEN,
         op_len: OP_LEN,
         max_ops: 30,
-        quick_cases: 4_000,
+        quick_cases: 16_000,
         thorough_cases: 300_000,
         run: run_sys,
         direct: Some(direct_with::<C10Oracle>),
